@@ -330,6 +330,10 @@ class Interp:
 
     def project(self, st, v, p):
         v = self.resolve(st, v)
+        if isinstance(p, tuple) and p and p[0] == "range":
+            if isinstance(v, Seq):
+                return Seq("%s[%r..%r]" % (v.name, p[1], p[2]), p[2].sub(p[1]), kind="bytes")
+            return Top("range of %r" % (v,))
         if isinstance(v, Struct):
             if p in v.fields:
                 return v.fields[p]
@@ -365,6 +369,10 @@ class Interp:
             return new
         v = self.resolve(st, v)
         p = path[0]
+        if isinstance(p, tuple) and p and p[0] == "range" and isinstance(v, Seq) and len(path) == 1:
+            attrs = dict(v.attrs)
+            attrs["writes"] = list(attrs.get("writes", [])) + [(p[1], p[2], new)]
+            return Seq(v.name, v.length, v.elems, v.chunks, attrs, v.kind)
         if isinstance(v, Struct):
             f = dict(v.fields)
             f[p] = self.set_path(st, v.fields.get(p, Top("uninit")), path[1:], new)
